@@ -19,6 +19,7 @@ import (
 
 	"istio.io/api/annotation"
 	networking "istio.io/api/networking/v1alpha3"
+	securityv1beta1 "istio.io/api/security/v1beta1"
 	"istio.io/istio/pilot/pkg/model"
 	"istio.io/istio/pkg/config"
 	"istio.io/istio/pkg/config/constants"
@@ -26,12 +27,15 @@ import (
 	"istio.io/istio/pkg/config/protocol"
 	"istio.io/istio/pkg/config/schema/gvk"
 	"istio.io/istio/pkg/kube/kclient/clienttest"
+	"istio.io/istio/pkg/util/protomarshal"
 	"verifharness/internal/wire"
 )
 
 // Op is one event of a history.
 //
 //	se / dr / vs / sc      create-or-update a ServiceEntry / DestinationRule / VirtualService / Sidecar
+//	pa / ef / gw           create-or-update a PeerAuthentication (namespace-wide, Mode) / EnvoyFilter (Mode = what it
+//	                       patches, V = a number inside the patch) / Gateway (Srv = port|protocol|host per server)
 //	del                    delete the object Kind/Ns/N
 //	msvc / meps / mdel     memory-registry service: add-or-update, set endpoints (EDS-only update), remove
 //	pod / poddel           kube pod (ambient flavour): create-or-update, delete
@@ -61,6 +65,10 @@ type Op struct {
 	Labels  map[string]string `json:"labels,omitempty"`
 	Sel     map[string]string `json:"sel,omitempty"`
 	Names   []string          `json:"names,omitempty"`
+	Mode    string            `json:"mode,omitempty"` // pa: STRICT | PERMISSIVE | DISABLE; ef: cluster | merge | ecds | gwcluster
+	V       int               `json:"v,omitempty"`    // ef: a number inside the patch (content change)
+	Gw      []string          `json:"gw,omitempty"`   // vs: gateways
+	Srv     []string          `json:"srv,omitempty"`  // gw: port|protocol|host
 }
 
 func (o Op) key() string {
@@ -113,7 +121,7 @@ func (w *world) clone() *world {
 // note records the effect of an op on the world (client-side ops have none).
 func (w *world) note(o Op) {
 	switch o.K {
-	case "se", "dr", "vs", "sc":
+	case "se", "dr", "vs", "sc", "pa", "ef", "gw":
 		if old, ok := w.Cfg[o.key()]; ok {
 			o.T = old.T // an update keeps the creation time
 		}
@@ -234,7 +242,7 @@ func render(o Op) config.Config {
 		return config.Config{Meta: meta, Spec: dr}
 	case "vs":
 		meta.GroupVersionKind = gvk.VirtualService
-		vs := &networking.VirtualService{Hosts: o.Hosts, ExportTo: o.Exp}
+		vs := &networking.VirtualService{Hosts: o.Hosts, ExportTo: o.Exp, Gateways: o.Gw}
 		hr := &networking.HTTPRoute{}
 		for _, d := range o.Dst {
 			f := strings.Split(d, "|")
@@ -254,8 +262,123 @@ func render(o Op) config.Config {
 		meta.GroupVersionKind = gvk.Sidecar
 		sc := &networking.Sidecar{Egress: []*networking.IstioEgressListener{{Hosts: o.Egress}}}
 		return config.Config{Meta: meta, Spec: sc}
+	case "pa":
+		meta.GroupVersionKind = gvk.PeerAuthentication
+		pa := &securityv1beta1.PeerAuthentication{Mtls: &securityv1beta1.PeerAuthentication_MutualTLS{
+			Mode: securityv1beta1.PeerAuthentication_MutualTLS_Mode(securityv1beta1.PeerAuthentication_MutualTLS_Mode_value[o.Mode]),
+		}}
+		return config.Config{Meta: meta, Spec: pa}
+	case "gw":
+		meta.GroupVersionKind = gvk.Gateway
+		gw := &networking.Gateway{Selector: map[string]string{"istio": "ingressgateway"}}
+		for i, sv := range o.Srv {
+			f := strings.Split(sv, "|")
+			port, _ := strconv.Atoi(f[0])
+			server := &networking.Server{
+				Port:  &networking.Port{Number: uint32(port), Protocol: f[1], Name: strings.ToLower(f[1]) + "-" + strconv.Itoa(i)},
+				Hosts: []string{f[2]},
+			}
+			if f[1] == "TLS" {
+				server.Tls = &networking.ServerTLSSettings{Mode: networking.ServerTLSSettings_PASSTHROUGH}
+			}
+			gw.Servers = append(gw.Servers, server)
+		}
+		return config.Config{Meta: meta, Spec: gw}
+	case "ef":
+		meta.GroupVersionKind = gvk.EnvoyFilter
+		ef := &networking.EnvoyFilter{}
+		if err := protomarshal.ApplyYAML(envoyFilterYAML(o), ef); err != nil {
+			panic("render: EnvoyFilter " + o.Mode + ": " + err.Error())
+		}
+		return config.Config{Meta: meta, Spec: ef}
 	}
 	panic("render: unknown op kind " + o.K)
+}
+
+// envoyFilterYAML: the spec of an EnvoyFilter op. Mode:
+//
+//	cluster    adds a static cluster ef-<name> (connect timeout V s) to sidecars
+//	gwcluster  the same for gateways
+//	merge      merges connect_timeout V s into the outbound clusters of port 80 (sidecars and gateways)
+//	ecds       adds the extension config ef-ext-<name> (content V) and inserts an HTTP filter that
+//	           refers to it by config discovery before the router of every outbound / gateway listener
+func envoyFilterYAML(o Op) string {
+	v := strconv.Itoa(1 + o.V)
+	addCluster := func(ctx string) string {
+		return `configPatches:
+- applyTo: CLUSTER
+  match:
+    context: ` + ctx + `
+  patch:
+    operation: ADD
+    value:
+      name: ef-` + o.N + `
+      type: STATIC
+      connect_timeout: ` + v + `s
+      load_assignment:
+        cluster_name: ef-` + o.N + `
+        endpoints:
+        - lb_endpoints:
+          - endpoint:
+              address:
+                socket_address:
+                  address: 127.0.0.1
+                  port_value: 9999
+`
+	}
+	switch o.Mode {
+	case "cluster":
+		return addCluster("SIDECAR_OUTBOUND")
+	case "gwcluster":
+		return addCluster("GATEWAY")
+	case "merge":
+		return `configPatches:
+- applyTo: CLUSTER
+  match:
+    cluster:
+      portNumber: 80
+  patch:
+    operation: MERGE
+    value:
+      connect_timeout: ` + v + `s
+`
+	case "ecds":
+		out := `configPatches:
+- applyTo: EXTENSION_CONFIG
+  patch:
+    operation: ADD
+    value:
+      name: ef-ext-` + o.N + `
+      typed_config:
+        "@type": type.googleapis.com/udpa.type.v1.TypedStruct
+        type_url: type.googleapis.com/envoy.extensions.filters.http.buffer.v3.Buffer
+        value:
+          max_request_bytes: ` + v + `000
+`
+		for _, ctx := range []string{"SIDECAR_OUTBOUND", "GATEWAY"} {
+			out += `- applyTo: HTTP_FILTER
+  match:
+    context: ` + ctx + `
+    listener:
+      filterChain:
+        filter:
+          name: envoy.filters.network.http_connection_manager
+          subFilter:
+            name: envoy.filters.http.router
+  patch:
+    operation: INSERT_BEFORE
+    value:
+      name: ef-ext-` + o.N + `
+      config_discovery:
+        config_source:
+          ads: {}
+          initial_fetch_timeout: 0s
+        type_urls: ["type.googleapis.com/envoy.extensions.filters.http.buffer.v3.Buffer"]
+`
+		}
+		return out
+	}
+	panic("render: unknown EnvoyFilter mode " + o.Mode)
 }
 
 func kindGVK(k string) config.GroupVersionKind {
@@ -268,6 +391,12 @@ func kindGVK(k string) config.GroupVersionKind {
 		return gvk.VirtualService
 	case "sc":
 		return gvk.Sidecar
+	case "pa":
+		return gvk.PeerAuthentication
+	case "ef":
+		return gvk.EnvoyFilter
+	case "gw":
+		return gvk.Gateway
 	}
 	panic("unknown kind " + k)
 }
@@ -374,7 +503,7 @@ func (st *site) apply(w *world, o Op) error {
 	defer w.note(o)
 	store := st.s.Store()
 	switch o.K {
-	case "se", "dr", "vs", "sc":
+	case "se", "dr", "vs", "sc", "pa", "ef", "gw":
 		if old, ok := w.Cfg[o.key()]; ok {
 			o.T = old.T
 			c := render(o)
@@ -444,7 +573,151 @@ var (
 	portSets  = [][]int{{80}, {80, 9090}, {8080}, {80, 443}, {80, 8080, 9090}, {9090}, {7070, 80}}
 	egressSet = [][]string{{"./*"}, {"*/*"}, {"ns2/*"}, {"./a.example.com", "ns2/*"}, {"./*", "istio-system/*"}, {"*/c.example.com", "./b.example.com"}, {"~/*"}}
 	memHost   = "m.ns1.svc.cluster.local"
+
+	// wideGrammar: stream c03 draws from a wider grammar - PeerAuthentication and EnvoyFilter ops, a
+	// ServiceEntry that selects the proxy itself (inbound clusters and listeners), DestinationRule hosts
+	// biased towards existing services, subsets and host changes. The other streams keep theirs (not one
+	// draw more or less), so their cases for a given seed do not move.
+	wideGrammar  bool
+	inboundSE    = "se-i"
+	inboundHost  = "in.example.com"
+	proxyIP      = "10.30.0.9"
+	allHostsWide = append(append([]string{}, allHosts...), inboundHost)
+	paNames      = []string{"pa-1", "pa-2", "pa-root"}
+	paNs         = map[string]string{"pa-1": "ns1", "pa-2": "ns2", "pa-root": "istio-system"}
+	efNames      = []string{"ef-1", "ef-2"}
 )
+
+func init() {
+	seNs[inboundSE], seHost[inboundSE], seVip[inboundSE] = proxyNs, inboundHost, "10.10.0.9"
+}
+
+// withProxyEndpoint makes the inbound ServiceEntry select the proxy: one of its endpoints is the
+// address both clients of a case connect from.
+func withProxyEndpoint(o Op) Op {
+	if o.K != "se" || o.N != inboundSE || o.Res != "STATIC" {
+		return o
+	}
+	for _, e := range o.Eps {
+		if ip, _ := splitEp(e); ip == proxyIP {
+			return o
+		}
+	}
+	o.Eps = append(append([]string{}, o.Eps...), proxyIP)
+	return o
+}
+
+// existingHosts: the hostnames some ServiceEntry of the world defines (sorted).
+func existingHosts(w *world) []string {
+	seen := map[string]bool{}
+	for _, k := range sortedKeys(w.Cfg) {
+		if c := w.Cfg[k]; c.K == "se" {
+			for _, h := range c.Hosts {
+				seen[h] = true
+			}
+		}
+	}
+	return sortedKeys(seen)
+}
+
+// genDRWide: like genDR, but mostly for a host that exists and mostly with subsets; an update changes
+// the host half of the time (the clusters of BOTH hosts have to follow).
+func genDRWide(r *wire.Rng, w *world, name string, old *Op, clock *int) Op {
+	o := genDR(r, name, clock)
+	hosts := existingHosts(w)
+	if len(hosts) > 0 && r.Chance(3, 4) {
+		o.Host = wire.Pick(r, hosts)
+	}
+	if len(o.Subsets) == 0 && r.Chance(3, 4) {
+		o.Subsets = wire.Pick(r, [][]string{{"v1"}, {"v1", "v2"}, {"v2"}})
+	}
+	if old != nil {
+		o.Ns, o.T = old.Ns, old.T
+		if r.Chance(1, 2) {
+			o.Host = old.Host
+		} else if o.Host == old.Host && len(hosts) > 1 {
+			for _, h := range hosts {
+				if h != old.Host {
+					o.Host = h
+					break
+				}
+			}
+		}
+		if len(old.Subsets) > 0 && r.Chance(1, 2) {
+			o.Subsets = old.Subsets // the same subsets move to the other host
+		}
+	}
+	return o
+}
+
+func genPA(r *wire.Rng, name string, clock *int) Op {
+	*clock++
+	return Op{K: "pa", N: name, Ns: paNs[name], T: *clock, Mode: wire.Pick(r, []string{"STRICT", "PERMISSIVE", "DISABLE", "DISABLE"})}
+}
+
+func genEF(r *wire.Rng, name string, clock *int) Op {
+	*clock++
+	return Op{K: "ef", N: name, Ns: wire.Pick(r, []string{proxyNs, proxyNs, "istio-system"}), T: *clock,
+		Mode: wire.Pick(r, []string{"cluster", "merge", "ecds", "ecds"}), V: r.Intn(3)}
+}
+
+// genWideOp: the ops only the wide grammar has.
+func genWideOp(r *wire.Rng, w *world, clock *int) Op {
+	find := func(k, name string) *Op {
+		for _, key := range sortedKeys(w.Cfg) {
+			if c := w.Cfg[key]; c.K == k && c.N == name {
+				cc := c
+				return &cc
+			}
+		}
+		return nil
+	}
+	switch x := r.Intn(10); {
+	case x < 4: // PeerAuthentication
+		name := wire.Pick(r, paNames)
+		if old := find("pa", name); old != nil {
+			if r.Chance(1, 3) {
+				return Op{K: "del", Kind: "pa", N: name, Ns: old.Ns}
+			}
+			o := genPA(r, name, clock)
+			o.T = old.T
+			return o
+		}
+		return genPA(r, name, clock)
+	case x < 7: // EnvoyFilter
+		name := wire.Pick(r, efNames)
+		if old := find("ef", name); old != nil {
+			if r.Chance(1, 3) {
+				return Op{K: "del", Kind: "ef", N: name, Ns: old.Ns}
+			}
+			o := genEF(r, name, clock)
+			o.Ns, o.T = old.Ns, old.T
+			if r.Chance(1, 2) {
+				o.Mode = old.Mode // only the content changes
+			}
+			return o
+		}
+		return genEF(r, name, clock)
+	default: // the ServiceEntry that selects the proxy
+		key := "se/" + proxyNs + "/" + inboundSE
+		if old, ok := w.Cfg[key]; ok {
+			if r.Chance(1, 5) {
+				return Op{K: "del", Kind: "se", N: inboundSE, Ns: old.Ns}
+			}
+			o := mutateSE(r, old)
+			if r.Chance(1, 2) {
+				o.Ports = wire.Pick(r, portSets) // inbound clusters come and go with the ports
+			}
+			return o
+		}
+		o := genSE(r, inboundSE, clock)
+		o.Res, o.Exp = "STATIC", nil
+		if len(o.Eps) == 0 {
+			o.Eps = genEps(r, 8)
+		}
+		return o
+	}
+}
 
 func genEps(r *wire.Rng, base int) []string {
 	n := 1 + r.Intn(3)
@@ -609,7 +882,15 @@ func sameOp(a, b Op) bool { return fmt.Sprintf("%+v", a) == fmt.Sprintf("%+v", b
 func genOp(r *wire.Rng, w *world, clock *int) Op {
 	for {
 		var o Op
-		switch x := r.Intn(20); {
+		x := 0
+		if wideGrammar && r.Chance(1, 4) {
+			x = 100
+		} else {
+			x = r.Intn(20)
+		}
+		switch {
+		case x == 100:
+			o = genWideOp(r, w, clock)
 		case x < 8: // ServiceEntry
 			name := wire.Pick(r, seNames)
 			key := "se/" + seNs[name] + "/" + name
@@ -634,6 +915,8 @@ func genOp(r *wire.Rng, w *world, clock *int) Op {
 			if old != nil {
 				if r.Chance(1, 3) {
 					o = Op{K: "del", Kind: "dr", N: name, Ns: old.Ns}
+				} else if wideGrammar {
+					o = genDRWide(r, w, name, old, clock)
 				} else {
 					o = genDR(r, name, clock)
 					o.Ns, o.T = old.Ns, old.T
@@ -641,6 +924,8 @@ func genOp(r *wire.Rng, w *world, clock *int) Op {
 						o.Host = old.Host
 					}
 				}
+			} else if wideGrammar {
+				o = genDRWide(r, w, name, nil, clock)
 			} else {
 				o = genDR(r, name, clock)
 			}
@@ -689,10 +974,10 @@ func genOp(r *wire.Rng, w *world, clock *int) Op {
 				o = genMem(r, clock)
 			}
 		}
-		o = normSE(o)
+		o = withProxyEndpoint(normSE(o))
 		// reject no-ops
 		switch o.K {
-		case "se", "dr", "vs", "sc":
+		case "se", "dr", "vs", "sc", "pa", "ef", "gw":
 			if old, ok := w.Cfg[o.key()]; ok && sameOp(old, o) {
 				continue
 			}
@@ -732,6 +1017,33 @@ func genBase(r *wire.Rng, clock *int) []Op {
 	}
 	if r.Chance(1, 4) {
 		ops = append(ops, genSC(r, clock))
+	}
+	if wideGrammar {
+		w := newWorld(false)
+		for _, o := range ops {
+			w.note(o)
+		}
+		for i, o := range ops {
+			if o.K == "dr" && r.Chance(3, 4) {
+				t := o.T
+				ops[i] = genDRWide(r, w, o.N, nil, clock)
+				ops[i].T = t
+			}
+		}
+		if r.Chance(1, 2) {
+			o := genSE(r, inboundSE, clock)
+			o.Res, o.Exp = "STATIC", nil
+			if len(o.Eps) == 0 {
+				o.Eps = genEps(r, 8)
+			}
+			ops = append(ops, withProxyEndpoint(normSE(o)))
+		}
+		if r.Chance(1, 4) {
+			ops = append(ops, genPA(r, wire.Pick(r, paNames), clock))
+		}
+		if r.Chance(1, 4) {
+			ops = append(ops, genEF(r, wire.Pick(r, efNames), clock))
+		}
 	}
 	return ops
 }
